@@ -25,7 +25,7 @@ pub struct ScopeCfg {
     pub no_tracingmacros: bool,
 }
 
-pub const FAMILIES: [&str; 16] = [
+pub const FAMILIES: [&str; 17] = [
     "begin",
     "end",
     "set_reg",
@@ -42,6 +42,7 @@ pub const FAMILIES: [&str; 16] = [
     "read_misc",
     "probe",
     "local_global_pair",
+    "nest_redefine",
 ];
 
 const REG_INDICES: [u16; 8] = [0, 1, 2, 255, 256, 3, 32767, 7];
@@ -211,7 +212,18 @@ impl<'a> ScopeGen<'a> {
             "set_reg" => {
                 let kind = self.kind();
                 let idx = self.reg_idx(kind);
-                let (v, w) = self.value(kind);
+                let (v, w) = if self.rng.chance(1, 8) {
+                    // re-assign the value the register holds right now (a write that changes
+                    // nothing visible must still have its scoping effect)
+                    let cur = self.model.reg(kind, idx);
+                    if kind == RegKind::Skip {
+                        cur
+                    } else {
+                        (cur.0, 0)
+                    }
+                } else {
+                    self.value(kind)
+                };
                 vec![Op::SetReg {
                     g: self.g(),
                     kind,
@@ -378,6 +390,59 @@ impl<'a> ScopeGen<'a> {
                         ]
                     }
                 }
+            }
+            "nest_redefine" => {
+                // Open several groups in one go and (re)define the same target locally at some of
+                // the depths, skipping others: the shape that distinguishes "nearest enclosing
+                // group that touched it" from "the directly enclosing group".
+                let mut ops = vec![];
+                let room = self.cfg.depth_cap.saturating_sub(self.model.depth());
+                if room < 2 {
+                    return vec![];
+                }
+                let levels = 2 + self.rng.below(room.min(5) - 1);
+                let kind = self.rng.below(4);
+                let t = self.target();
+                let rk = self.kind();
+                let idx = self.reg_idx(rk);
+                let ch = self.ch();
+                for l in 0..levels {
+                    ops.push(Op::Begin);
+                    // touch at this depth with probability 1/2, but always at the first level
+                    if l == 0 || self.rng.chance(1, 2) {
+                        match kind {
+                            0 => {
+                                self.next_body += 1;
+                                ops.push(Op::Def {
+                                    g: false,
+                                    gdef: false,
+                                    t,
+                                    body: self.next_body,
+                                });
+                            }
+                            1 => {
+                                let (v, w) = self.value(rk);
+                                ops.push(Op::SetReg {
+                                    g: false,
+                                    kind: rk,
+                                    idx,
+                                    v,
+                                    w,
+                                });
+                            }
+                            2 => ops.push(Op::SetCat {
+                                g: false,
+                                ch,
+                                v: self.rng.below(16) as u8,
+                            }),
+                            _ => ops.push(Op::Font {
+                                g: false,
+                                font: 1 + self.rng.below(3) as u8,
+                            }),
+                        }
+                    }
+                }
+                ops
             }
             _ => unreachable!(),
         }
